@@ -166,7 +166,7 @@ def make_sim(var, rng):
     sim = emg3d.Simulation(survey, model, max_workers=1, **gkw,
                            receiver_interpolation='linear', name="c17",
                            solver_opts={'plain': True, 'tol': 1e-4,
-                                        'maxit': 20},
+                                        'tol_gradient': 1e-3, 'maxit': 20},
                            tqdm_opts={'disable': True})
     if var == 6:
         for f in ('f-1', 'f-2'):
@@ -287,6 +287,14 @@ def deep_equal(a, b, ordered=False):
     if hasattr(a, "to_dict") or hasattr(b, "to_dict"):
         if type(a).__name__ != type(b).__name__:
             return False
+        if type(a).__name__ == "Simulation":
+            # settings as the object itself knows them (to_dict() of both
+            # sides could agree on a wrong value)
+            for att in ("tol_forward", "tol_gradient", "max_workers",
+                        "gridding", "receiver_interpolation", "name",
+                        "layered"):
+                if getattr(a, att, None) != getattr(b, att, None):
+                    return False
         return deep_equal(a.to_dict(), b.to_dict(), True)
     if a is None or b is None:
         return a is None and b is None
